@@ -51,6 +51,15 @@ def process(item):
 
 def main():
     items = [(f"C{i:02d}", v) for i in range(1, 21) for v in ("H1", "H2")]
+    if "refresh" in sys.argv:  # refresh Cxx ...: re-run the stored refactorings of these properties with the current checks
+        props = [a for a in sys.argv[1:] if a.startswith("C") and len(a) == 3]
+        res = load()
+        for prop, v in items:
+            r = res.get(f"{prop}_{v}")
+            if prop in props and r and r.get("verified") and "checks" in r:
+                r.setdefault("runs_before_refresh", []).append(r.pop("checks"))
+        save(res)
+        items = [it for it in items if it[0] in props]
     j = int(sys.argv[sys.argv.index("-j") + 1]) if "-j" in sys.argv else 3
     with ThreadPoolExecutor(j) as ex:
         for key, r in ex.map(process, items):
